@@ -1,5 +1,6 @@
 #include "idl_theory.h"
 #include "idl_value_listener.h"
+#include "verif.h"
 #include <algorithm>
 #include <stdexcept>
 #include <cassert>
@@ -53,6 +54,7 @@ namespace smt
             const auto dst_cnst = new idl_distance(ctr_lit, from, to, dist);
             var_dists.emplace(ctr, dst_cnst);
             dist_constrs[{from, to}].emplace_back(dst_cnst);
+            VERIF_HOOK(dl_distance(0, ctr, from, to, inf_rational(dist)));
             return ctr_lit;
         }
     }
